@@ -16,7 +16,7 @@ From Continuum Require Import Model.Base Model.VTable Model.Core
      live      -> its newest version is not a DELETE and holds exactly its versioned columns
      not live  -> it has no version at all, or its newest version is a DELETE *)
 Theorem C01_newest_version_equals_live_row : forall g evs,
-  cfg_consistent g -> flat_cfg g -> g_versioning g = true -> g_native g = false ->
+  cfg_consistent g -> flat_hier g -> flat_cfg g -> g_versioning g = true -> g_native g = false ->
   trace_wf g state0 evs ->
   forall c k, (c < length (g_classes g))%nat -> k_versioned (cls_of g c) = true ->
     match find_live (d_live (s_db (run g evs))) c k with
